@@ -652,8 +652,14 @@ func runITERDONE(c *Ctx) {
 						}
 					}
 				}
+				for call, ret := range swallowedAt {
+					bad = true
+					c.Violation(call.Parent(), P.InstrPos(ret), "stop signal swallowed below "+fn.Name(),
+						fmt.Sprintf("%s turns the callback's stop signal into a nil return; only %s may do that — the enclosing levels of the walk carry on with the remaining entries after the callback said stop", ir.FuncName(call.Parent()), ir.FuncName(fn)))
+				}
+				swallowedAt = map[*ssa.Call]*ssa.Return{}
 				if !bad {
-					c.OK(P.InstrPos(bin), fmt.Sprintf("%s compares with %s using ==", ir.FuncName(fn), g.Name()), "callback errors reach the comparison unwrapped", false)
+					c.OK(P.InstrPos(bin), fmt.Sprintf("%s compares with %s using ==", ir.FuncName(fn), g.Name()), "callback errors reach the comparison unwrapped and unswallowed", false)
 				}
 			}
 		}
@@ -721,6 +727,9 @@ func runITERDONE(c *Ctx) {
 // wrapsCallbackError: in fn (and callees that receive the same callback), is
 // an error produced by calling parameter cb — or by such a callee — passed to
 // a wrapping call whose result is returned?
+// swallowedAt collects, per run of ITERDONE, callback(-family) calls whose error can end in a nil return below the API function.
+var swallowedAt = map[*ssa.Call]*ssa.Return{}
+
 func wrapsCallbackError(c *Ctx, fn *ssa.Function, cb *ssa.Parameter, seen map[*ssa.Function]bool) *ssa.Call {
 	if seen[fn] {
 		return nil
@@ -762,6 +771,20 @@ func wrapsCallbackError(c *Ctx, fn *ssa.Function, cb *ssa.Parameter, seen map[*s
 	ei := ir.ErrorResultIndex(fn.Signature)
 	if ei < 0 {
 		return nil
+	}
+	// the stop signal must leave this level as an error: a level that turns it into nil lets the outer levels carry on
+	for v := range carriers {
+		call, ok := v.(*ssa.Call)
+		if !ok {
+			continue
+		}
+		var errV ssa.Value = call
+		if call.Call.Signature().Results().Len() > 1 {
+			continue
+		}
+		if ok2, ret := errorPropagated(fn, call, errV); !ok2 && ret != nil {
+			swallowedAt[call] = ret
+		}
 	}
 	for _, r := range ir.Returns(fn) {
 		w, ok := r.Results[ei].(*ssa.Call)
